@@ -42,6 +42,7 @@ import (
 	"sort"
 	"strconv"
 	"strings"
+	"sync"
 	"time"
 
 	"github.com/KevoDB/kevo/pkg/common/iterator"
@@ -716,6 +717,68 @@ func runC19(c *Case, out func(string)) {
 			}
 			checkScan("Scan "+strings.Join(l[1:], " "), rows, tx, nil, o)
 			tx.Rollback()
+		case "cbegin":
+			// l[1] clients begin a read-only transaction AT THE SAME TIME, l[2] rounds: every handle
+			// handed out must be distinct and usable by its owner (one TxGet), then it is rolled back
+			nc, _ := strconv.Atoi(l[1])
+			rounds, _ := strconv.Atoi(l[2])
+			bad := ""
+			var bmu sync.Mutex
+			note := func(m string) {
+				bmu.Lock()
+				if bad == "" {
+					bad = m
+				}
+				bmu.Unlock()
+			}
+			for rd := 0; rd < rounds && bad == ""; rd++ {
+				ids := make([]string, nc)
+				var wg sync.WaitGroup
+				start := make(chan struct{})
+				for ci := 0; ci < nc; ci++ {
+					wg.Add(1)
+					go func(ci int) {
+						defer wg.Done()
+						<-start
+						ctx, cancel := context.WithTimeout(context.Background(), 20*time.Second)
+						defer cancel()
+						resp, err := n.cli.BeginTransaction(ctx, &pb.BeginTransactionRequest{ReadOnly: true})
+						if err != nil {
+							note("concurrent BeginTransaction failed: " + err.Error())
+							return
+						}
+						ids[ci] = resp.TransactionId
+					}(ci)
+				}
+				close(start)
+				wg.Wait()
+				seen := map[string]int{}
+				for ci, id := range ids {
+					if id == "" {
+						continue
+					}
+					if o, dup := seen[id]; dup {
+						note(fmt.Sprintf("clients %d and %d were both given the handle %s by concurrent BeginTransaction calls", o, ci, id))
+					}
+					seen[id] = ci
+				}
+				for id := range seen {
+					ctx, cancel := context.WithTimeout(context.Background(), 20*time.Second)
+					if _, err := n.cli.TxGet(ctx, &pb.TxGetRequest{TransactionId: id, Key: []byte("k")}); err != nil {
+						note("a handle from a concurrent BeginTransaction is not usable: " + err.Error())
+					}
+					if _, err := n.cli.RollbackTransaction(ctx, &pb.RollbackTransactionRequest{TransactionId: id}); err != nil {
+						note("rollback of a handle from a concurrent BeginTransaction failed: " + err.Error())
+					}
+					cancel()
+				}
+			}
+			if bad != "" {
+				out("CB bad")
+				fail(bad)
+			} else {
+				out(fmt.Sprintf("CB ok handles=%d", nc*rounds))
+			}
 		case "begin":
 			ro := l[1] == "ro"
 			blocked := rwOpen > 0 || (!ro && roOpen > 0)
@@ -1380,6 +1443,7 @@ func c19Sweep(w *bufio.Writer, seed int64, r *rand.Rand) {
 	for i := 0; i < 3; i++ {
 		g.line("del %s 0", c19Key(r, g.nk))
 	}
+	g.line("cbegin %d %d", 8+r.Intn(9), 150+r.Intn(100))
 	g.begin(true)
 	for _, p := range c19Prefixes[1:] {
 		g.line("scan %s - - - 0", p)
